@@ -106,24 +106,3 @@ fn c13_reader_ops_bounded() {
     let no_more_bytes = (consumed + 7) / 8 == 4;
     assert!(it.close().is_ok() == (no_more_bytes && rest_zero));
 }
-
-/// kind: bounded(every u32 n >= 1; complete for that domain)
-/// encode_natural then read_natural returns n, consuming exactly the written bits
-#[kani::proof]
-#[kani::unwind(35)]
-fn c13_natural_round_trip_bounded() {
-    let n: u32 = kani::any();
-    kani::assume(n >= 1);
-    let mut sink = ArrSink { buf: [0; 12], len: 0 };
-    let written;
-    {
-        let mut w = BitWriter::new(&mut sink);
-        written = crate::encode_natural(n as usize, &mut w).unwrap();
-        assert!(w.n_total_written() == written);
-        w.flush_all().unwrap();
-    }
-    let mut it = BitIter::from(sink.buf.iter().copied());
-    let r = it.read_natural::<usize>(None);
-    assert!(r == Ok(n as usize));
-    assert!(it.n_total_read() == written);
-}
